@@ -30,6 +30,7 @@ RULE = (
     "  The restricted call may be nested in (or wrap) functions that declare support everywhere, and its portable "
     "look-alike (an expression that compares equal) may be requested first in every engine. "
     "  40 % of the join requests issued through the operation object carry explicit min_columns = max_columns drawn at random: if an operand lacks one of them the call must raise, otherwise the node must carry exactly them. "
+    "  Some joins carry only min_columns, possibly naming a non-key column that both operands have. "
 )
 ASSUMPTIONS = [
     "well-formedness is judged node-locally by vmon/monitors/structure.py against the documented invariants",
